@@ -44,11 +44,10 @@ void rmtree(const std::string & d)
     rmdir(d.c_str());
 }
 
-std::string snapshot(const std::string & d)
+void snapshot_into(const std::string & d, const std::string & prefix, std::vector<std::string> & items)
 {
-    std::vector<std::string> items;
     DIR *dir = opendir(d.c_str());
-    if (!dir) return "?";
+    if (!dir) return;
     while (dirent *e = readdir(dir))
     {
         std::string n = e->d_name;
@@ -56,12 +55,19 @@ std::string snapshot(const std::string & d)
         std::string p = d + "/" + n;
         struct stat st{};
         if (lstat(p.c_str(), &st) != 0) continue;
-        if (S_ISDIR(st.st_mode)) { items.push_back(hex(n) + "/"); continue; }
+        if (S_ISDIR(st.st_mode)) { items.push_back(hex(prefix + n) + "/"); snapshot_into(p, prefix + n + "/", items); continue; }
         std::ifstream f(p, std::ios::binary);
         std::string c((std::istreambuf_iterator<char>(f)), std::istreambuf_iterator<char>());
-        items.push_back(hex(n) + "=" + std::to_string(c.size()) + "." + std::to_string(fnv(c)));
+        items.push_back(hex(prefix + n) + "=" + std::to_string(c.size()) + "." + std::to_string(fnv(c)));
     }
     closedir(dir);
+}
+
+// the working directory, recursively: "<hex relative name>=<size>.<fnv>" for files, "<hex relative name>/" for directories
+std::string snapshot(const std::string & d)
+{
+    std::vector<std::string> items;
+    snapshot_into(d, "", items);
     std::sort(items.begin(), items.end());
     std::string r;
     for (auto & i : items) { if (!r.empty()) r += ";"; r += i; }
